@@ -308,6 +308,15 @@ impl SubCheck for Resolve {
                         // setting the same value again is accepted, a different one refused
                         ensure!(call("set twice", || set(&mut p, i, v))?.is_ok(), "set_{}({v}) twice with the same value was refused", NAMES[i]);
                         let other = if i == WDAY { (v + 1) % 7 } else if i == AMPM { 1 - v } else { let o = v.wrapping_add(1); if in_setter_range(i, o) && o > v { o } else { v.wrapping_sub(1) } };
+                        // values that alias v after a narrowing conversion differ from v all the same
+                        if i != WDAY && i != AMPM {
+                            let k = [8u32, 16, 31, 32, 33][(v as u64 % 5) as usize];
+                            for alias in [v.wrapping_add(1i64 << k), v.wrapping_sub(1i64 << k)] {
+                                if alias == v { continue; }
+                                let mut q = p.clone();
+                                ensure!(call("set twice", || set(&mut q, i, alias))?.is_err(), "set_{}({alias}) after set_{}({v}) was accepted", NAMES[i], NAMES[i]);
+                            }
+                        }
                         if in_setter_range(i, other) && other != v {
                             let mut q = p.clone();
                             match call("set twice", || set(&mut q, i, other))? {
@@ -449,8 +458,191 @@ impl SubCheck for Resolve {
     }
 }
 
+// ---------------------------------------------------------------------------------------------
+/// a zone with one offset change, so that local times can be skipped or repeated
+#[derive(Clone, Copy, Debug)]
+pub struct OneStep {
+    pub t: i64,
+    pub a: i32,
+    pub b: i32,
+}
+impl OneStep {
+    fn off(self, o: i32) -> FixedOffset {
+        FixedOffset::east_opt(o).unwrap()
+    }
+    /// (instant, offset) of every occurrence of the wall-clock second `w`, earliest first
+    pub fn preimage(self, w: i64) -> Vec<(i64, i32)> {
+        let mut v = vec![];
+        if w - (self.a as i64) < self.t { v.push((w - self.a as i64, self.a)); }
+        if w - self.b as i64 >= self.t { v.push((w - self.b as i64, self.b)); }
+        v.sort();
+        v
+    }
+}
+impl chrono::TimeZone for OneStep {
+    type Offset = FixedOffset;
+    fn from_offset(_: &FixedOffset) -> Self {
+        OneStep { t: 0, a: 0, b: 0 }
+    }
+    fn offset_from_local_date(&self, local: &NaiveDate) -> chrono::MappedLocalTime<FixedOffset> {
+        self.offset_from_local_datetime(&local.and_time(NaiveTime::MIN))
+    }
+    fn offset_from_local_datetime(&self, local: &NaiveDateTime) -> chrono::MappedLocalTime<FixedOffset> {
+        let w = local.and_utc().timestamp();
+        let c = self.preimage(w);
+        match c.len() {
+            0 => chrono::MappedLocalTime::None,
+            1 => chrono::MappedLocalTime::Single(self.off(c[0].1)),
+            _ => chrono::MappedLocalTime::Ambiguous(self.off(c[0].1), self.off(c[1].1)),
+        }
+    }
+    fn offset_from_utc_date(&self, utc: &NaiveDate) -> FixedOffset {
+        self.offset_from_utc_datetime(&utc.and_time(NaiveTime::MIN))
+    }
+    fn offset_from_utc_datetime(&self, utc: &NaiveDateTime) -> FixedOffset {
+        self.off(if utc.and_utc().timestamp() >= self.t { self.b } else { self.a })
+    }
+}
+
+#[derive(Clone, Debug, Serialize, Deserialize)]
+pub struct VCase {
+    pub t: i64,
+    pub a: i32,
+    pub b: i32,
+    /// wall-clock second (as a Unix-style count) and fraction to resolve
+    pub w: i64,
+    pub nano: Option<u32>,
+    /// 0 none, 1 offset before the change, 2 offset after, 3 another offset
+    pub off_choice: u8,
+    /// 0 none, 1 first occurrence, 2 second occurrence (or the first when there is one), 3 off by one
+    pub ts_choice: u8,
+    /// supply the calendar date and clock fields (else only timestamp [+ offset])
+    pub civil: bool,
+}
+pub struct VarZone;
+impl SubCheck for VarZone {
+    type Case = VCase;
+    fn name(&self) -> &'static str {
+        "resolve_in_variable_zone"
+    }
+    fn rule(&self) -> &'static str {
+        "case = (zone with one offset change, wall-clock time near / inside the skipped or repeated interval or far away, which of date+clock fields, offset field (before / after / other) and timestamp field (first / second occurrence / off by one) are supplied); to_datetime_with_timezone: every Ok result shows the supplied wall clock, carries the supplied offset, has the supplied timestamp and is one of the zone's occurrences of that wall clock; when the fields come from one actual occurrence and include its offset (or the wall clock occurs once) the result is exactly that occurrence; a skipped wall clock or a contradicting offset is an error; non-trivial = wall clock inside a repeated or skipped interval"
+    }
+    fn strategy(&self) -> Option<BoxedStrategy<VCase>> {
+        let t = prop_oneof![3 => -2_000_000_000i64..4_000_000_000, 1 => -60_000_000_000i64..250_000_000_000];
+        let offs = prop_oneof![
+            3 => (-50i32..=56, -8i32..=8).prop_filter_map("no change", |(q, d)| if d != 0 { Some((q * 900, q * 900 + d * 900)) } else { None }),
+            1 => (gen::offset_secs(), gen::offset_secs()).prop_filter("no change", |(a, b)| a != b),
+        ];
+        Some(
+            (t, offs, prop_oneof![5 => 0u8..=1, 1 => Just(2u8)], -4i64..=4, any::<u16>(), proptest::option::of(0u32..1_000_000_000), 0u8..4, 0u8..4, prop::bool::weighted(0.8))
+                .prop_map(|(t, (a, b), place, d, r, nano, off_choice, ts_choice, civil)| {
+                    let (lo, hi) = (a.min(b) as i64, a.max(b) as i64);
+                    // place 0: at the ends of the interval [t + lo, t + hi); 1: inside it; 2: far away
+                    let w = match place {
+                        0 => if r % 2 == 0 { t + lo + d } else { t + hi + d },
+                        1 => t + lo + (r as i64 * (hi - lo).max(1)) / 65_536,
+                        _ => t + (r as i64 - 32_768) * 40_000,
+                    };
+                    VCase { t, a, b, w, nano, off_choice, ts_choice, civil: civil || ts_choice == 0 }
+                })
+                .boxed(),
+        )
+    }
+    fn check(&self, c: &VCase, obs: &mut Obs) -> Result<(), String> {
+        let tz = OneStep { t: c.t, a: c.a, b: c.b };
+        let occ = tz.preimage(c.w);
+        obs.nt_if(occ.len() == 2, "repeated_wall_clock");
+        obs.nt_if(occ.is_empty(), "skipped_wall_clock");
+        obs.label_if(occ.len() == 1, "wall_clock_once");
+        let day = c.w.div_euclid(86_400);
+        let secs = c.w.rem_euclid(86_400) as u32;
+        let (y, mo, da) = cal::civil_from_days(day);
+        let mut p = Parsed::new();
+        let set = |r: chrono::ParseResult<()>| r.map_err(|e| format!("harness: setter refused: {e:?}"));
+        if c.civil {
+            set(p.set_year(y))?;
+            set(p.set_month(mo as i64))?;
+            set(p.set_day(da as i64))?;
+            set(p.set_hour((secs / 3600) as i64))?;
+            set(p.set_minute((secs / 60 % 60) as i64))?;
+            set(p.set_second((secs % 60) as i64))?;
+        }
+        if let Some(n) = c.nano { set(p.set_nanosecond(n as i64))?; }
+        // the actual occurrence the fields are derived from, if any
+        let pick = match c.ts_choice { 2 => occ.last(), _ => occ.first() }.copied();
+        let off_field: Option<i32> = match c.off_choice {
+            0 => None,
+            1 => Some(c.a),
+            2 => Some(c.b),
+            _ => Some(c.a.max(c.b) + 900),
+        };
+        if let Some(o) = off_field { set(p.set_offset(o as i64))?; }
+        let ts_field: Option<i64> = match (c.ts_choice, pick) {
+            (0, _) => None,
+            (3, Some((u, _))) => Some(u + 1),
+            (_, Some((u, _))) => Some(u),
+            // skipped wall clock: the instant the wall clock would have with the offset before the change
+            (_, None) => Some(c.w - c.a as i64),
+        };
+        if let Some(ts) = ts_field { set(p.set_timestamp(ts))?; }
+        obs.label_if(off_field.is_some(), "offset_field");
+        obs.label_if(ts_field.is_some(), "timestamp_field");
+        let r = call("to_datetime_with_timezone", || p.to_datetime_with_timezone(&tz))?;
+        let what = format!("zone {}|{}->{} wall {} fields civil={} off={:?} ts={:?}", c.t, c.a, c.b, c.w, c.civil, off_field, ts_field);
+        if let Ok(z) = &r {
+            // soundness
+            let got = (z.timestamp(), z.offset().local_minus_utc());
+            if c.civil {
+                ensure_eq!(z.naive_local().and_utc().timestamp(), c.w, "{what}: wall clock of the result");
+                ensure!(occ.contains(&got), "{what}: result {got:?} is not an occurrence of the wall clock in the zone ({occ:?})");
+            }
+            if let Some(o) = off_field { ensure_eq!(got.1, o, "{what}: offset of the result vs supplied offset"); }
+            if let Some(ts) = ts_field { ensure_eq!(got.0, ts, "{what}: timestamp of the result vs supplied timestamp"); }
+            if let Some(n) = c.nano { ensure_eq!(z.timestamp_subsec_nanos(), n, "{what}: nanosecond"); }
+            ensure_eq!(tz.preimage(z.naive_local().and_utc().timestamp()).contains(&got), true, "{what}: result {got:?} is not consistent with the zone");
+        }
+        // completeness / error class, for field sets derived from one actual occurrence
+        let consistent_ts = match (ts_field, pick) { (None, _) => true, (Some(ts), Some((u, _))) => ts == u, _ => false };
+        if c.civil && consistent_ts {
+            match pick {
+                None => ensure!(r.is_err(), "{what}: a skipped wall clock was resolved"),
+                Some((u, o)) => {
+                    let derived_off = off_field.map(|f| f == o);
+                    match derived_off {
+                        Some(true) => {
+                            // the offset names this occurrence (when both occurrences are asked for, ts picks)
+                            let z = r.as_ref().map_err(|e| format!("{what}: failed with {:?} although every field comes from the occurrence ({u}, {o})", kind(e)))?;
+                            ensure_eq!((z.timestamp(), z.offset().local_minus_utc()), (u, o), "{what}: resolved occurrence");
+                        }
+                        Some(false) => {
+                            // the offset belongs to the other occurrence (then the timestamp, if any, contradicts) or to none
+                            let other = occ.iter().find(|x| Some(x.1) == off_field && x.0 != u);
+                            match other {
+                                Some(x) if ts_field.is_none() => {
+                                    let z = r.as_ref().map_err(|e| format!("{what}: failed with {:?} although the offset names the occurrence {x:?}", kind(e)))?;
+                                    ensure_eq!((z.timestamp(), z.offset().local_minus_utc()), *x, "{what}: resolved occurrence");
+                                }
+                                _ => ensure!(r.is_err(), "{what}: contradicting offset / timestamp accepted: {:?}", r.as_ref().ok().map(|z| (z.timestamp(), z.offset().local_minus_utc()))),
+                            }
+                        }
+                        None => {
+                            if occ.len() == 1 {
+                                let z = r.as_ref().map_err(|e| format!("{what}: failed with {:?} although the wall clock occurs exactly once", kind(e)))?;
+                                ensure_eq!((z.timestamp(), z.offset().local_minus_utc()), (u, o), "{what}: resolved occurrence");
+                            }
+                            // repeated wall clock without an offset: which occurrence (or 'not enough') is not stated
+                        }
+                    }
+                }
+            }
+        }
+        Ok(())
+    }
+}
+
 pub fn subs() -> Vec<Box<dyn DynSub>> {
-    vec![Box::new(Resolve)]
+    vec![Box::new(Resolve), Box::new(VarZone)]
 }
 
 pub fn run(ctx: &Ctx) {
@@ -480,4 +672,5 @@ pub fn run(ctx: &Ctx) {
     }, false, true);
     // (ii)+(iii) random subsets incl. time/timestamp/offset, corrupted and independent values
     ctx.run_prop(&Resolve, ctx.n(5_000_000, 300_000_000));
+    ctx.run_prop(&VarZone, ctx.n(1_000_000, 50_000_000));
 }
